@@ -57,6 +57,7 @@ def work(item):
             acc.d["paths"] += 1
         numeric = enc.extra.get("numeric")
         twin_budget = 3
+        twin_sat = twin_tried = 0
         for key, vals in enc.outs.items():
             if vals is None:
                 continue
@@ -97,10 +98,14 @@ def work(item):
                         s2 = z3.substitute(s.t, (R(name), prime))
                         ex["twins_total"] += 1
                         st_, _ = prover.check_sat(list(D) + list(enc.pc) + [s.t != s2], timeout_ms=5000)
+                        twin_tried += 1
                         if st_ == "sat":
                             ex["twins_sat"] += 1
+                            twin_sat += 1
                         elif st_ == "unsat":
-                            acc.inconclusive(f"{topo.name} {enc.name}: vacuity twin unsat: {key}[{i}] cannot depend on allowed input {name}")
+                            twin_budget += 1  # e.g. the first segment behind an ideal origin really is independent of its speed: try another one
+        if twin_tried and not twin_sat:
+            acc.inconclusive(f"{topo.name} {enc.name}: no reachability twin is satisfiable (encoding may be vacuous)")
     return acc.done(prover)
 
 
